@@ -299,6 +299,9 @@ func c14OnCycle(edges [][]int, i int) bool {
 func c14GraphOracle(c *vlib.Case) *vlib.Violation {
 	edges := c14Edges(c)
 	p := c14GraphProject(edges)
+	if c.Project != nil {
+		p.RootSpelling, p.ViaPath = c.Project.RootSpelling, c.Project.ViaPath
+	}
 	cyclic, codes, tooBig := c14Flatten(edges, 3000)
 	if tooBig {
 		return nil
@@ -380,8 +383,11 @@ func c14GraphClassify(c *vlib.Case) (bool, []string) {
 	cyclic, codes, _ := c14Flatten(edges, 3000)
 	cls := []string{"acyclic"}
 	nt := false
+	if c.Project.RootSpelling != "" {
+		cls = append(cls, "root-path-not-clean")
+	}
 	if cyclic {
-		cls = []string{"cyclic"}
+		cls[0] = "cyclic"
 		nt = true
 	} else {
 		seen := map[int]bool{}
@@ -433,9 +439,14 @@ var c14RandomGraphs = &vlib.Check{
 				edges[i] = append(edges[i], t)
 			}
 		}
-		return c14GraphCase(edges)
+		c := c14GraphCase(edges)
+		c.Project.RootSpelling = vlib.Pick(r, c14Spellings)
+		c.Project.ViaPath = vlib.Chance(r, 1, 2)
+		return c
 	},
 }
+
+var c14Spellings = []string{"", "dot", "slashes", "updown"}
 
 // c14Chains: acyclic include chains through directories in which files share their base names (index.jst, a.jst): an
 // include stack keyed by anything less than the full path would report a false recursion.
@@ -628,7 +639,10 @@ func TestC14(t *testing.T) {
 					return nil
 				}
 				i++
-				return c14GraphCase(cases[i-1])
+				c := c14GraphCase(cases[i-1])
+				// the root file's path is written in four ways in turn (clean, dir/./root, dir//root, dir/sub/../root)
+				c.Project.RootSpelling = c14Spellings[i%len(c14Spellings)]
+				return c
 			}) {
 				ev.Exhaustive(fmt.Sprintf("include graphs: all digraphs with ordered out-edge lists of length <= 2 on <= %d files", maxN), true)
 			}
